@@ -276,6 +276,13 @@ def check_config(ctx, F, tag, cfg):
     # when a BitVector is made from a RawVector; it is exact only while the bits past `len` in the last word are zero.
     import c05
     c05.check_tail_invariant(ctx, F, tag, prefix="C08.R7.unused-bits-zero")
+    # R8 (borrowed): the values the reviewed unchecked reads trust -- the cached count, the positions select() returns, a mapping
+    # that really exists -- are established by rules owned by C01 / C18
+    from core import Relabel
+    import c01, c18
+    c01.check_config(Relabel(ctx, {"C01.R3.cached-count": "C08.R8.cached-count", "C01.R4.select-store-read-agreement": "C08.R8.select-store-read-agreement"}), F, tag)
+    if cfg in ("native", "native-rel"):
+        c18.check_config(Relabel(ctx, {"C18.R1.": "C08.R8.mmap."}), F, tag)
     return sites
 
 
